@@ -104,6 +104,9 @@ S4 == << StructN(<<MA(ByteN), MB(BytesN(ThisA))>>),
          BitStructN(<<MA(BitsIntN(3)), MB([k |-> "Flag"]), MC(BitsIntN(4))>>),
          UnionN([x |-> "const", v |-> VNone], <<BytesN(CInt(2)), MA(ByteN), PaddingN(1), MB(Al("Int16ub"))>>),
          UnionN(CInt(2), <<ConstN(<<1>>), MA(Al("Int16ub")), MB(ByteN)>>),
+         UnionN(CInt(0), <<MA(PrefixedN(ByteN, [k |-> "Tell"])), MB(ByteN)>>),
+         UnionN(CStrV(<<97>>), <<MA(PrefixedN(ByteN, PassN)), MB(ByteN)>>),
+         UnionN(CInt(1), <<MA(ByteN), MB(PaddedN(CInt(2), PrefixedN(ByteN, PassN))), MC(Al("Int16ub"))>>),
          PrefixedN(ByteN, StructN(<<MA([k |-> "Tell"]), MB(GreedyBytesN), MC([k |-> "Tell"])>>)),
          StructN(<<MA(ByteN), MB(PrefixedN(ByteN, RawCopyN(GreedyBytesN))), MC([k |-> "Tell"])>>),
          StructN(<<MA(ByteN), MB(PaddedN(CInt(2), StopIfN(CBool(TRUE))))>>) >>
